@@ -1,0 +1,17 @@
+//go:build !verif
+
+package influxql
+
+// Verification hooks (see verif_on.go). With the "verif" build tag off these
+// are zero-size types and empty methods that the compiler inlines away.
+
+type verifScanState struct{}
+
+type verifReadState struct{}
+
+func (s *bufScanner) verifOnScan() {}
+func (s *bufScanner) verifOnCurr() {}
+func (r *reader) verifOnRead()     {}
+func (r *reader) verifOnFresh()    {}
+func (r *reader) verifOnUnread()   {}
+func (r *reader) verifOnCurr()     {}
